@@ -14,17 +14,21 @@ CLAIMED = {
             "Ordering clauses of crash safety: data sync before metadata sync wherever dirty regions are committed, "
             "metadata sync before freed extents become reusable on every path of flush, who may promote/insert holes, "
             "pending holes count as occupied for every placement decision, dirty tracking after every mmap write, flush "
-            "before punch, whole-slot metadata writes. Decided over all CFG paths of the named functions; not the "
+            "before punch, whole-slot metadata writes, open never fails on slot contents, no slot write before the file growth it "
+            "depends on. Decided over all CFG paths of the named functions; not the "
             "recovered bytes.", "DESIGN.md §4 C05"),
     "C09": ("publication-order rules (must-precede, held-lock, critical-section, atomic-ordering operands) over MIR",
             "Publication order of the writer (data, region length, page index, shared length; index and length in one "
-            "pages-write critical section; Release/Acquire) and load-length-before-snapshot on every read-only path. "
+            "pages-write critical section; Release/Acquire), load-length-before-snapshot on every read-only path, page bytes "
+            "decoded only while the page table is pinned, pointer reads only while a Reader is live, data before placement "
+            "on relocation, no lock-order cycle that could park a reader. "
             "Not prefix equality of values.", "DESIGN.md §4 C09"),
     "C10": ("lock-discipline rules (same-guard snapshots, typestate claim-before-release, held/not-held at call sites) "
             "over MIR",
             "Structural clauses of isolation: single-guard placement snapshots, reservation pairing and claiming under "
             "the deciding layout guard, layout lock not held across file growth, remap under mmap+file write locks, a "
-            "Reader pins its region, reuse gated against readers. Not per-thread content equality.", "DESIGN.md §4 C10"),
+            "Reader pins its region, reuse gated against readers, in-place growth consults reservations/holes/pending holes, a "
+            "relocation target leaves the hole map before it is reserved, offset-caching sources pin the placement. Not per-thread content equality.", "DESIGN.md §4 C10"),
     "C11": ("whole-program lock-order analysis (held-lock dataflow on MIR, interprocedural summaries, cycle rule)",
             "Absence of feasible lock-order cycles and blocking same-class nestings under writer-preferring RwLocks, "
             "over every acquisition site, body and callback context of rawdb and vecdb; class-level over-approximation.",
@@ -32,7 +36,8 @@ CLAIMED = {
     "C12": ("ordering / held-lock / who-may-call / constant-operand rules over MIR",
             "compact flushes before punching; punch ranges derive only from a region's metadata tail or promoted holes; "
             "tail punch under that region's metadata write lock with a single-guard snapshot; every punch under layout "
-            "and file read locks; KEEP_SIZE; nobody but the growth functions changes a file length. Not the page-rounding "
+            "and file read locks; KEEP_SIZE; nobody but the growth functions changes a file length; writers hold the metadata "
+            "lock while copying; the hole map is rebuilt in start order at open. Not the page-rounding "
             "arithmetic.", "DESIGN.md §4 C12"),
     "C13": ("refusal-atomicity dataflow (mutation provenance + error-variant flow, `?`-branch sensitive, "
             "interprocedural summaries)",
@@ -41,29 +46,36 @@ CLAIMED = {
     "C14": ("def-use / switch-arm / who-produces rules over MIR of the import entry points",
             "Version-path agreement between import and forced import, discard arms exactly the four mismatch variants "
             "and only produced by header decoding, auxiliary regions removed on reset, siblings agree, plain import is "
-            "refusal-atomic. Not that matching data is returned intact.", "DESIGN.md §3.F, §4 C14"),
+            "refusal-atomic, a fresh header is written only into an empty region, plain import never reaches the forced path. "
+            "Not that matching data is returned intact.", "DESIGN.md §3.F, §4 C14"),
     "C16": ("refusal-atomicity dataflow + dominance / data-dependence rules + decoder panic-site discharge",
             "Refusal clauses of rollback: failed rollback leaves the vector unchanged, stamp-mismatch test guards every "
             "step of rollback_before, abandoned-future records removed before the new record and not counted in the "
-            "retention arithmetic, change-record parsing cannot panic or over-allocate. Not the count min(k, commits).",
+            "retention arithmetic, pruning in numeric stamp order, every Ok return of rollback_before re-bases the rollback "
+            "state and none does after a failure, every slot index of a raw record is validated before any is applied, "
+            "change-record parsing cannot panic or over-allocate. Not the count min(k, commits).",
             "DESIGN.md §4 C16"),
     "C17": ("abstract interpretation of `a <= b` facts over MIR discharging every panic / allocation site of the decoders",
             "Decoders never panic, overflow or allocate beyond the input on arbitrary bytes; validity checks present; "
-            "bad metadata slots skipped. Not round-trip equality.", "DESIGN.md §3.D, §4 C17"),
+            "bad metadata slots skipped without shifting their neighbours' indices; writer/reader limits agree; raw undo "
+            "validates every index. Not round-trip equality.", "DESIGN.md §3.D, §4 C17"),
     "C18": ("must-precede / constant-operand / data-flow / who-may-call rules over MIR of the open path",
             "Advisory lock taken before any resize/sync/map/read, truncate(false), locked files flow into the long-lived "
             "structs, nobody else opens for writing or unlocks, last drop joins background tasks which hold no counted "
-            "handle. OS lock semantics trusted.", "DESIGN.md §4 C18"),
+            "handle, the locked descriptor is never duplicated, nothing on the refusal path (incl. drop glue) touches the "
+            "files. OS lock semantics trusted.", "DESIGN.md §4 C18"),
     "C19": ("backward data-dependence (version coverage) + dominance / ordering rules over MIR",
             "Every compute_* method presents a version that depends on every ReadableVec source and cannot return Ok "
             "without validating; validator/truncate/loop order; reset only skippable when empty; header persisted on "
-            "every write exit; only the validator updates the computed version. Not the resume index value.",
+            "every write exit; only the validator updates the computed version; EagerVec reports its computed version to "
+            "dependants. Not the resume index value.",
             "DESIGN.md §3.G, §4 C19"),
     "C20": ("bound-class inventory of unchecked read sites (dominating guards + backward slices), publication-site "
             "classification, guard-carrying type rules",
             "No read of mapped/file bytes is bounded only by stored+pushed or by nothing; every publication of the shared "
             "length is of a class that keeps it within what is on disk; sources caching absolute offsets pin the "
-            "placement; page entries published after the region covers them. Not the arithmetic exactness of offsets.",
+            "placement; page entries published after the region covers them and sized from the bytes written; source "
+            "constructors clamp; pointer reads only under a live Reader. Not the arithmetic exactness of offsets.",
             "DESIGN.md §3.E, §4 C20"),
 }
 
